@@ -88,7 +88,21 @@ static void do_op(actor_t *a, op_t *o)
                 EV("\"e\":\"Call\",\"t\":%d,\"op\":\"push\",\"us\":[%d,%d],\"hd\":%d", id, u, v, HD(o));
             else
                 EV("\"e\":\"Call\",\"t\":%d,\"op\":\"push\",\"us\":[%d],\"hd\":%d", id, u, HD(o));
-            CHK(ABT_pool_push_threads_ex(g_pool, ts, v ? 2 : 1, push_ctx(HD(o))));
+            {
+                /* null handles in the list are skipped: the same units, with holes at random places */
+                ABT_thread tl[5];
+                int n = 0, want = v ? 2 : 1, put = 0;
+                while (put < want || (n < 5 && rnd(3) == 0)) {
+                    if (put < want && (n >= 3 || rnd(2)))
+                        tl[n++] = ts[put++];
+                    else
+                        tl[n++] = ABT_THREAD_NULL;
+                }
+                if (o->ctx & 4)
+                    CHK(ABT_pool_push_threads(g_pool, tl, (size_t)n));
+                else
+                    CHK(ABT_pool_push_threads_ex(g_pool, tl, (size_t)n, push_ctx(HD(o))));
+            }
             EV("\"e\":\"Ret\",\"t\":%d,\"op\":\"push\",\"r\":[]", id);
             break;
         }
